@@ -919,4 +919,16 @@ def expand_password(data, num_bytes):
       base="seeded_neutral/N01", tests="fail", note="keyword call binds X and Y to the wrong slots (both ends agree, published transcript differs)"),
     B("n01-restore-forgets-started-flag", ["C08"], [(SP, "        self._started = True\n        xy_scalar_bytes = _from_hex", "        xy_scalar_bytes = _from_hex")],
       base="seeded_neutral/N01", tests="fail", note="shared restore tail no longer marks the instance as started"),
+    B("n10-phase-bit-overwritten", ["C07"], [(SP, "        self._phase |= phase_bit\n", "        self._phase = phase_bit\n")],
+      base="seeded_neutral/N10", note="bit-set state: finish() clears the started bit, so start() is accepted again after finish()"),
+    B("n11-divmod-remainder-unchecked", ["C14"], [(GR, "        assert leftover == 0\n", "        assert leftover >= 0\n")],
+      base="seeded_neutral/N11", note="divmod form of the cofactor no longer checks that q divides p-1"),
+    B("n12-sign-bit-read-from-bit-254", ["C15", "C05"], [(ED, "    x_is_odd = (encoded >> 255) & 1", "    x_is_odd = (encoded >> 254) & 1")],
+      base="seeded_neutral/N12", tests="fail", note="shift-form sign extraction reads the wrong bit"),
+    B("n13-inplace-mask-on-last-byte", ["C11", "C04"], [(UT, "    octets[0] &= top_byte_mask_int\n", "    octets[-1] &= top_byte_mask_int\n")],
+      base="seeded_neutral/N13", note="in-place mask applied to the least significant byte of the draw"),
+    B("n13-top-byte-bits-or-7", ["C11", "C04"], [(UT, "    top_byte_bits = (num_bits % 8) or 8\n", "    top_byte_bits = (num_bits % 8) or 7\n")],
+      base="seeded_neutral/N13", note="`or`-form mask width wrong when bits is a multiple of 8"),
+    B("n16-generator-skips-second-identity", ["C02", "C17"], [(SP, "    for identity in identities:\n", "    for identity in identities[:1]:\n")],
+      base="seeded_neutral/N16", tests="fail", note="generator-built transcript omits idB"),
 ]
